@@ -1108,6 +1108,11 @@ pub fn body(input: ParseString) -> ParseResult<Body> {
     match section(new_input.clone()) {
       Ok((input, sect)) => {
         //println!("Parsed section: {:#?}", sect);
+        // A section that consumed nothing (it stopped at once in front of a stray mika close bracket)
+        // would be parsed again at the same cursor forever: stop, parse() reports the rest as not parsed.
+        if input.cursor == new_input.cursor {
+          break;
+        }
         sections.push(sect);
         new_input = input;
       }
